@@ -191,9 +191,15 @@ func instrRun(c *core.Ctx) {
 		})
 		c.State(core.Hash64("pair", strings.Join(names, "+")))
 	}
+	probes := map[string]bool{"write-srt": true, "read-stl-open": true, "optimize": true, "read-ts-french": true}
 	for i, a := range ops {
 		for j, b := range ops {
 			if j < i {
+				continue
+			}
+			// quick: pairs inside one family (same format / list operations) and every operation against four
+			// probe operations; thorough: all pairs
+			if c.Tier == core.Quick && family(a.Name) != family(b.Name) && !probes[a.Name] && !probes[b.Name] {
 				continue
 			}
 			for order := 0; order < 2; order++ {
@@ -226,6 +232,24 @@ func instrRun(c *core.Ctx) {
 	if c.Tier == core.Thorough {
 		c.ExtraMax["preemption_bound"] = 2
 	}
+}
+
+// family groups operations by the tables they can collide on: the format for readers and writers, "list" for
+// the transformations, "files" for the file helpers.
+func family(name string) string {
+	for _, pre := range []string{"read-", "write-"} {
+		if strings.HasPrefix(name, pre) {
+			f := strings.TrimPrefix(name, pre)
+			if i := strings.IndexAny(f, "-#"); i >= 0 {
+				f = f[:i]
+			}
+			return f
+		}
+	}
+	if name == "open-write-files" {
+		return "files"
+	}
+	return "list"
 }
 
 // compress renders a schedule as the positions and values of its non-default choices.
@@ -355,8 +379,8 @@ func init() {
 		ID: "C20", Level: "model_checking",
 		Rule: "alphabet = independent operations each on its own fresh input (readers of every format, 5 writers, 9 transformations, file open/write), inputs chosen to collide on shared tables. Stage A: every operation alone with the canonical hash of ALL package-level state of astisub probed at every statement, and after every ordered pair of operations (if no operation changes shared state every interleaving is Mazurkiewicz-equivalent to a sequential run). Stage B: cooperative scheduler over the statement-level points of the instrumented build; states = (thread set, scheduling point), transitions = scheduling decisions; every schedule with <= 1 preemption (2 for same-format pairs in thorough) of every unordered pair in both orders and of 5 three-thread sets; each call's canonical result must equal its solo result; solo results re-checked after every other operation. Stage C: free-running goroutines (2,8,32) under the race detector with GOMAXPROCS 2,4,16",
 		Scope: map[core.Tier]string{
-			core.Quick:    "24+ operations; stage A all ops (probe at every point) + all ordered pairs; stage B all pairs x both orders, preemption bound 1, 5 triples bound 1; stage C 3 GOMAXPROCS values",
-			core.Thorough: "additionally preemption bound 2 for 9 same-format pairs",
+			core.Quick:    "39 operations (every reader, writer, transformation, option variant, both branches of per-document options); stage A all ops (globals probed at every point) + all ordered pairs run sequentially; stage B preemption bound 1 at every point for all pairs inside a family (same format / list operations) and every operation against four probe operations, both orders, + 5 triples; stage C 3 GOMAXPROCS values",
+			core.Thorough: "stage B for ALL pairs in both orders; additionally preemption bound 2 for 9 same-format pairs",
 		},
 		Assumptions: []string{"Go toolchain, standard library and race detector", "code inside dependencies runs atomically between two scheduling points (sound for value-level interference because those libraries keep per-call state; their data races are stage C's job)", "regexp/strings.Replacer/sync objects and func values are opaque to the globals hash", "stage C is free-running and therefore sampling by nature; it decides nothing that stages A and B decide"},
 		Plain:       plainRun, Instr: instrRun, Replay: replay, MinOutcomes: 2,
